@@ -343,10 +343,11 @@ package jlib
 //@   ensures [C17+C09:error-has-no-matches] r1 != nil ==> len(r0) == 0
 //@   ensures [C17:limit-respected] (r1 == nil && limit >= 0) ==> len(r0) <= limit
 //@   ensures [C17:all-matches-without-limit] (r1 == nil && limit < 0) ==> r0 == ret("callMatchFunc#0", 0)
+//@   atif[C17:only-an-end-before-its-start-is-rejected-empty-matches-are-matches] "m.indexes[1] < m.indexes[0]" iff m.indexes[1] < m.indexes[0]
 //@   ensures [C17+C09+C16:offsets-ascending-within-source] r1 == nil ==> (forall k in [0, len(r0)): (0 <= r0[k].indexes[0] && r0[k].indexes[0] <= r0[k].indexes[1] && r0[k].indexes[1] <= len(s)))
 //@   ensures [C17+C09+C16:matches-do-not-overlap] r1 == nil ==> (forall k in [1, len(r0)): r0[k - 1].indexes[1] <= r0[k].indexes[0])
 //@   assigns heap
-//@   loop 0 invariant -1 <= $i0 && 0 <= end && end <= len(s) && alloc(matches)
+//@   loop 0 invariant -1 <= $i0 && 0 <= end && end <= len(s) && alloc(matches) && (limit < 0 ==> matches == ret("callMatchFunc#0", 0))
 //@   loop 0 invariant forall k in [0, $i0 + 1): (0 <= matches[k].indexes[0] && matches[k].indexes[0] <= matches[k].indexes[1] && matches[k].indexes[1] <= len(s) && matches[k].indexes[1] <= end)
 //@   loop 0 invariant forall k in [1, $i0 + 1): matches[k - 1].indexes[1] <= matches[k].indexes[0]
 //@   loop 0 invariant $i0 >= 0 ==> end == matches[$i0].indexes[1]
@@ -482,6 +483,9 @@ package jlib
 //@ func Each
 //@   props C14 C09
 //@   requires fn != nil && ifaceable(obj)
+//@   ensures [C14:needs-an-object] (kind(res(obj)) != 21 && kind(res(obj)) != 25) ==> (r0 == nil && r1 != nil)
+//@   ensures [C14:function-of-one-to-three-parameters] (kind(res(obj)) == 21 && (ret("iface:ParamCount#0", 0) < 1 || ret("iface:ParamCount#0", 0) > 3)) ==> (r0 == nil && r1 != nil)
+//@   ensures [C14:error-has-no-result] r1 != nil ==> r0 == nil
 //@ func eachMap
 //@   props C14 C09
 //@   requires fn != nil && kind(v) == 21 && canif(v) && 1 <= ufi_paramcount(fn) && ufi_paramcount(fn) <= 3
@@ -507,6 +511,8 @@ package jlib
 //@   props C14 C09
 //@   requires fn != nil && ifaceable(obj)
 //@   ensures [C14:error-has-no-result] r1 != nil ==> r0 == nil
+//@   ensures [C14:needs-an-object] (kind(res(obj)) != 21 && kind(res(obj)) != 25) ==> r1 != nil
+//@   ensures [C14:function-of-one-to-three-parameters] (kind(res(obj)) == 21 && (ret("iface:ParamCount#0", 0) < 1 || ret("iface:ParamCount#0", 0) > 3)) ==> r1 != nil
 //@ func siftMap
 //@   props C14 C09
 //@   requires fn != nil && kind(v) == 21 && canif(v) && 1 <= ufi_paramcount(fn) && ufi_paramcount(fn) <= 3
@@ -529,9 +535,18 @@ package jlib
 //@ func Keys
 //@   props C14 C09
 //@   requires ifaceable(obj)
+//@   ensures [C14:error-propagates] ret("keys#0", 1) != nil ==> (r0 == nil && r1 == ret("keys#0", 1))
+//@   ensures [C14:no-names-is-no-value] (ret("keys#0", 1) == nil && len(ret("keys#0", 0)) == 0) ==> (r0 == nil && r1 == jtypes.ErrUndefined)
+//@   ensures [C14:names-listed] (ret("keys#0", 1) == nil && len(ret("keys#0", 0)) > 0) ==> (r1 == nil && r0 != nil)
+//@   atcall[C14:names-of-the-argument] keys#0 requires callee_v == obj
 //@ func keys
 //@   props C14 C09
 //@   requires ifaceable(v)
+//@   ensures [C14:object-names] kind(res(v)) == 21 ==> calls("keysMap#0") == 1
+//@   ensures [C14:array-of-objects-names] arrKind(kind(res(v))) ==> calls("keysArray#0") == 1
+//@   ensures [C14:other-values-have-no-names] (kind(res(v)) != 21 && kind(res(v)) != 25 && !arrKind(kind(res(v)))) ==> (r1 == nil && len(r0) == 0)
+//@   atcall[C14:names-of-the-resolved-value] keysMap#0 requires callee_v == res(v)
+//@   atcall[C14:names-of-the-resolved-value] keysArray#0 requires callee_v == res(v)
 //@ func keysMap
 //@   props C14 C09
 //@   requires kind(v) == 21 && canif(v)
@@ -589,6 +604,9 @@ package jlib
 //@   assigns nothing
 //@ func Trim
 //@   props C09 C16
+//@   ensures [C16:runs-collapsed-then-ends-trimmed] same(result, ret("strings.TrimSpace#0", 0))
+//@   atcall[C16:whitespace-runs-found-by-the-regular-expression-on-code-points] regexp.Regexp.ReplaceAllString#0 requires callee_arg0 == reWhitespace && same(callee_arg1, s) && len(callee_arg2) == 1 && callee_arg2[0] == 32
+//@   atcall[C16:ends-trimmed-of-the-collapsed-text] strings.TrimSpace#0 requires same(callee_arg0, ret("regexp.Regexp.ReplaceAllString#0", 0))
 //@ func Match
 //@   props C09 C17
 //@   requires pattern != nil
@@ -623,12 +641,26 @@ package jlib
 //@   props C09
 //@ func Random
 //@   props C09
+// $fromMillis: the instant ms milliseconds after the epoch (msToTime), in the given offset when there is one, UTC
+// otherwise, rendered by the picture (the ISO 8601 default when none is given); a bad time zone is an error.
 //@ func FromMillis
 //@   props C09 C19
+//@   ensures [C19:invalid-time-zone-is-an-error] (len(tz.String) != 0 && ret("parseTimeZone#0", 1) != nil) ==> (r1 == ret("parseTimeZone#0", 1) && len(r0) == 0)
+//@   atcall[C19:the-instant-ms-after-the-epoch] msToTime#0 requires callee_ms == ms
+//@   atcall[C19:the-given-offset] parseTimeZone#0 requires same(callee_tz, tz.String)
+//@   atcall[C19:the-given-picture-or-the-ISO-default] FormatTime#0 requires (len(picture.String) != 0 ==> same(callee_picture, picture.String)) && (len(picture.String) == 0 ==> same(callee_picture, defaultFormatTimeLayout))
+// $toMillis: the first of the layouts (the picture, or the ISO 8601 defaults) that parses the text gives the
+// instant, converted by timeToMS; text that fits none is an error.
 //@ func ToMillis
 //@   props C09 C19
+//@   ensures [C19:unparsable-text-is-an-error] (r1 != nil) ==> r0 == 0
+//@   atcall[C19:text-parsed-with-the-layout] parseTime#0 requires same(callee_s, s) && same(callee_picture, l)
+//@   loop 0 calls [C19:every-layout-tried-until-one-fits] parseTime#0
+//@   loop 0 invariant -1 <= $i0
 //@ func parseTime
 //@   props C09 C19
+//@   ensures [C19:invalid-picture-is-an-error] ret("FormatTime#0", 1) != nil ==> r1 != nil
+//@   atcall[C19:layout-from-the-picture] FormatTime#0 requires same(callee_picture, picture)
 
 // END OF CONTRACTS (package jlib)
 
